@@ -111,6 +111,8 @@ type Ctx struct {
 	Consts map[string]*Sort // declared 0-ary symbols
 	Funcs  map[string]*FuncDecl
 	Axioms map[string][]*Term // function symbol -> axioms included when the symbol is used
+	// SkipQuantAxioms drops quantified axioms from scripts (satisfiability checks of vacuity guards).
+	SkipQuantAxioms bool
 	fresh  map[string]int
 }
 
@@ -960,6 +962,9 @@ func (c *Ctx) rebuild(t *Term, args []*Term) *Term {
 // ---------------------------------------------------------------- printing
 
 func smtSym(s string) string {
+	if strings.ContainsAny(s, "|\\") {
+		s = strings.NewReplacer("|", "!!", "\\", "!!").Replace(s)
+	}
 	for _, r := range s {
 		if !(r >= 'a' && r <= 'z' || r >= 'A' && r <= 'Z' || r >= '0' && r <= '9' || r == '_' || r == '.' || r == '$' || r == '!') {
 			return "|" + s + "|"
@@ -1006,6 +1011,9 @@ func (c *Ctx) Script(logic string, asserts []*Term, getModelFor []*Term) string 
 		sort.Strings(names)
 		for _, f := range names {
 			for _, ax := range c.Axioms[f] {
+				if c.SkipQuantAxioms && hasQuant(ax) {
+					continue
+				}
 				if !seenAx[ax] {
 					seenAx[ax] = true
 					all = append(all, ax)
@@ -1251,7 +1259,15 @@ func (p *printer) render(t *Term, sub func(*Term) string) string {
 			for i, pt := range t.Pats {
 				ps[i] = "(" + sub(pt) + ")"
 			}
-			body = fmt.Sprintf("(! %s :pattern %s)", body, strings.Join(ps, " :pattern "))
+			if t.Name == "multi" {
+				// one multi-pattern: all terms must match
+				for i, pt := range t.Pats {
+					ps[i] = sub(pt)
+				}
+				body = fmt.Sprintf("(! %s :pattern (%s))", body, strings.Join(ps, " "))
+			} else {
+				body = fmt.Sprintf("(! %s :pattern %s)", body, strings.Join(ps, " :pattern "))
+			}
 		}
 		return fmt.Sprintf("(%s (%s) %s)", t.Op, strings.Join(vs, " "), body)
 	}
@@ -1287,4 +1303,42 @@ func (t *Term) Size() int {
 	}
 	rec(t)
 	return len(seen)
+}
+
+func hasQuant(t *Term) bool {
+	seen := map[int]bool{}
+	var rec func(t *Term) bool
+	rec = func(t *Term) bool {
+		if seen[t.ID] {
+			return false
+		}
+		seen[t.ID] = true
+		if t.Op == "forall" || t.Op == "exists" {
+			return true
+		}
+		for _, a := range t.Args {
+			if rec(a) {
+				return true
+			}
+		}
+		return false
+	}
+	return rec(t)
+}
+
+// StripQuant removes top-level conjuncts that contain quantifiers.
+func (c *Ctx) StripQuant(t *Term) *Term {
+	if t.Op != "and" {
+		if hasQuant(t) {
+			return c.True()
+		}
+		return t
+	}
+	var keep []*Term
+	for _, a := range t.Args {
+		if !hasQuant(a) {
+			keep = append(keep, a)
+		}
+	}
+	return c.And(keep...)
 }
